@@ -249,6 +249,14 @@ class _Undefined:
 Undefined = _Undefined()
 
 
+class _Triggering(set):
+    """The names trigger() is announcing; `assigning` while it makes its own re-assignments of their current values."""
+
+    assigning = True
+
+    __hash__ = None
+
+
 class _PartiallyInitialized(RuntimeError):
     """A watcher was (un)registered on an object whose construction or restoration is not finished."""
 
@@ -1721,8 +1729,12 @@ class Parameter(_ParameterBase):
         if obj is None or not watchers:
             return
 
+        # (an event made by trigger() itself, as opposed to an assignment made
+        # by a callback while trigger() is announcing this parameter)
+        triggering = obj.param._TRIGGER
         event = Event(what='value', name=name, obj=obj, cls=self.owner,
-                      old=_old, new=val, type=None)
+                      old=_old, new=val,
+                      type='triggered' if (getattr(triggering, 'assigning', False) and name in triggering) else None)
 
         # Copy watchers here since they may be modified inplace during iteration
         try:
@@ -2943,7 +2955,7 @@ class Parameters:
         # (the names being triggered: assignments made to other parameters by
         # the callbacks that run meanwhile are ordinary assignments)
         triggering = self_._TRIGGER
-        self_._TRIGGER = set(params) | set(triggers)
+        self_._TRIGGER = _Triggering(set(params) | set(triggers))
         if isinstance(triggering, set):
             # trigger() called from a callback of a running trigger()
             self_._TRIGGER |= triggering
@@ -2976,7 +2988,8 @@ class Parameters:
     def _is_triggered(self_, event):
         """Whether the event was produced by trigger() rather than by an assignment."""
         triggering = self_._TRIGGER
-        return triggering is True or (bool(triggering) and event.name in triggering)
+        return triggering is True or (bool(triggering) and event.name in triggering
+                                      and event.type == 'triggered')
 
     def _update_event_type(self_, watcher, event, triggered):
         """Return an updated Event object with the type field set appropriately."""
@@ -3029,6 +3042,10 @@ class Parameters:
         Batch call a set of watchers based on the parameter value
         settings in kwargs using the queued Event and watcher objects.
         """
+        if isinstance(self_._TRIGGER, _Triggering):
+            # trigger() has made its re-assignments: whatever callbacks
+            # assign from here on is an ordinary assignment
+            self_._TRIGGER.assigning = False
         while self_._events:
             event_dict = OrderedDict([((event.name, event.what), event)
                                       for event in self_._events])
